@@ -405,7 +405,7 @@ Theorem irregular_sites_order_independent :
 Proof. exact (conj irregular_models_hold irregular_models_cover). Qed.
 Print Assumptions irregular_sites_order_independent.
 
-(* the fold sites whose body T4 recognises as set-insert / per-key-write / flag-or *)
+(* the fold sites whose body T4 recognises as set-insert / per-key-write / flag-or / sum *)
 Theorem shaped_fold_sites_order_independent :
   forall s k, In (s, k) shaped_fold_sites -> shape_statement k /\ fold_class s = true.
 Proof. exact shaped_sites_forall. Qed.
